@@ -145,6 +145,7 @@ func c04Nontrivial(v *jsonx.Val, depth int) bool {
 type C04Val struct {
 	Case *DCase `json:"case"`
 	Kind string `json:"kind"` // "value" | "root"
+	CLI  bool   `json:"cli,omitempty"` // a rejected root also goes through the binary with -o FILE
 }
 
 // c04ValCheck: the program prints json(root) as its only output (or makes root
@@ -180,6 +181,11 @@ func c04ValCheck(c *C04Val) (msg string, cyclic bool, discard string) {
 		if !ok {
 			if o.RootErr == "" {
 				return "a cyclic or inexpressible root was serialised: " + clip(o.RootJSON), true, ""
+			}
+			if c.CLI && run.CLIBinary() != "" {
+				if m := c04RejectedThroughCLI(src, c.Case.inFiles()[0].Data); m != "" {
+					return m, true, ""
+				}
 			}
 			return "", true, ""
 		}
@@ -226,6 +232,43 @@ func c04ValCheck(c *C04Val) (msg string, cyclic bool, discard string) {
 		}
 	}
 	return "", false, ""
+}
+
+// c04RejectedThroughCLI: the binary, asked to write a rejected root to a file, reports the
+// error, and whatever the named file holds afterwards is not malformed output: the file is
+// absent, or it holds a well-formed document (the one it held before). The same when -o
+// names the input file itself.
+func c04RejectedThroughCLI(src string, input []byte) string {
+	earlier := "[\"an earlier document\"]\n"
+	for _, mode := range []string{"fresh", "existing", "inplace"} {
+		files := map[string][]byte{"in.json": input}
+		out := "out.json"
+		switch mode {
+		case "existing":
+			files["out.json"] = []byte(earlier)
+		case "inplace":
+			out = "in.json"
+		}
+		res, err := run.CLI(run.CLIOpts{Args: []string{"-o", out, src, "in.json"}, Files: files, KeepDir: true})
+		if err != nil || res.TimedOut {
+			if err == nil {
+				res.Cleanup()
+			}
+			continue
+		}
+		data, rerr := readFile(res.Dir + "/" + out)
+		res.Cleanup()
+		if res.Exit == 0 || len(res.Stderr) == 0 {
+			return fmt.Sprintf("jqawk -o %s with a root that cannot be serialised: exit status %d, stderr %q", out, res.Exit, clip(string(res.Stderr)))
+		}
+		if rerr != nil {
+			continue // no file: nothing was written
+		}
+		if _, perr := jsonx.Parse(strings.TrimSpace(string(data))); perr != nil {
+			return fmt.Sprintf("jqawk -o %s (%s file) reported the error but left the file holding %q, which is not a JSON document", out, mode, clip(string(data)))
+		}
+	}
+	return ""
 }
 
 func c04ParseAll(text string) ([]*jsonx.Val, error) {
@@ -282,6 +325,7 @@ func genC04Val(t *rapid.T) (*C04Val, map[string]bool) {
 	body = append(body, stmts...)
 	if rapid.IntRange(0, 3).Draw(t, "asroot") == 0 {
 		c.Kind = "root"
+		c.CLI = rapid.IntRange(0, 7).Draw(t, "rejectedcli") == 0
 		body = append(body, ast.ExprS(ast.Set(ast.Dollar(), rootExpr)))
 	} else {
 		body = append(body, ast.Print(ast.Call(ast.Id("json"), rootExpr)))
@@ -321,6 +365,9 @@ func c04NonFinite(prog string) string {
 		}
 		if o.RootErr == "" {
 			return fmt.Sprintf("a root holding a non-finite number was serialised: %q", clip(o.RootJSON))
+		}
+		if run.CLIBinary() != "" {
+			return c04RejectedThroughCLI(prog, []byte("{}"))
 		}
 	}
 	return ""
